@@ -155,7 +155,7 @@ func (env *vhConnEnv) RoundTrip(req *http.Request) (*http.Response, error) {
 	var s []byte
 	// the templates enabled by TPLMASK (bit i = template i)
 	var enabled []int
-	for i := 0; i < 8; i++ {
+	for i := 0; i < 9; i++ {
 		if env.tplMask&(1<<uint(i)) != 0 {
 			enabled = append(enabled, i)
 		}
@@ -182,6 +182,10 @@ func (env *vhConnEnv) RoundTrip(req *http.Request) (*http.Response, error) {
 		// reconnection time is set when the field is processed, not when an event is dispatched
 		d := verifNondetBytes("retrydigits", verifParam("RDIGITS", 2))
 		s = append(append([]byte("retry:"), d...), []byte("\ndata:x")...)
+	case 8:
+		// an event whose last line is terminated but whose blank line never comes: at a clean
+		// end of the body it is dispatched (go-sse's adaptation), and its id counts
+		s = append(append([]byte("id:7\n\nid:"), verifNondetBytes("idhole", 1)...), []byte("\ndata:x\n")...)
 	}
 	r := &vhReader{data: s}
 	switch verifChoose("endkind", 2) {
@@ -223,6 +227,9 @@ func vhConnSetup(maxRetries int) vhConnSetupT {
 	// a successful connection resets the count, so the script length is bounded instead
 	env.maxAttempts = verifParam("A", 3)
 	initial := 2 * time.Millisecond
+	if verifParam("HOLD", 0) == 1 {
+		initial = time.Hour // a wait that does not elapse within the scenario
+	}
 	cl := Client{
 		HTTPClient: &http.Client{Transport: env},
 		Backoff:    Backoff{InitialInterval: initial, Multiplier: 1, Jitter: -1, MaxRetries: maxRetries},
@@ -242,7 +249,11 @@ func vhConnSetup(maxRetries int) vhConnSetupT {
 		env.retries = append(env.retries, d)
 		env.retryErrs = append(env.retryErrs, err)
 		// cancellation while waiting for the retry timer
-		if verifParam("CANCEL", 1) == 1 && verifChoose("cancel-in-wait", 2) == 1 {
+		if verifParam("HOLD", 0) == 1 {
+			// ... long before the (one hour) wait is over: the timer does not fire any more
+			verifTimerHold()
+			env.ctx.cancel()
+		} else if verifParam("CANCEL", 1) == 1 && verifChoose("cancel-in-wait", 2) == 1 {
 			env.ctx.cancel()
 		}
 	}
@@ -495,19 +506,77 @@ func vhCheckC10(env *vhConnEnv, bodyKind, getBodyFailsAt, maxRetries int, err er
 // reconnection like any other (Last-Event-ID of the last dispatched event, a body
 // re-obtained through GetBody). MaxRetries -1: every Connect makes exactly one attempt.
 func vhC10Reconnect() {
-	su := vhConnSetup(-1)
+	maxRetries := verifParam("RMAX", -1)
+	su := vhConnSetup(maxRetries)
 	env := su.env
 	var err error
 	for k := 0; k < env.maxAttempts; k++ {
+		start := len(env.attempts)
 		err = su.c.Connect()
 		verifAssert(err != nil, "C11/Connect/never-returns-nil")
 		if env.ctx.err != nil || env.getBodyFailed {
 			break
 		}
 		var ce *ConnectionError
-		if errors.As(err, &ce) && (ce.Err == ErrNoGetBody || ce.Err == vhErrGetBody) {
+		if !errors.As(err, &ce) {
+			verifAssert(false, "C11/Connect/other-errors-are-wrapped-in-ConnectionError")
 			break
 		}
+		if ce.Err == ErrNoGetBody || ce.Err == vhErrGetBody {
+			break
+		}
+		// every Connect call has the whole retry budget: it gives up only after MaxRetries
+		// further attempts without a successful connection, counted within this call
+		call := env.attempts[start:]
+		if n := len(call); n > 0 && call[n-1].kind != 1 {
+			series := 0
+			for _, a := range call {
+				if a.kind == 2 {
+					series = 1
+				} else {
+					series++
+				}
+			}
+			if maxRetries > 0 {
+				verifAssert(series == maxRetries+1, "C11/Connect/returns-only-when-retries-are-exhausted")
+			} else {
+				verifAssert(series == 1, "C11/Connect/no-retries-configured-returns-after-first-failure")
+			}
+			verifCover("C11/Connect/retries-exhausted")
+		}
 	}
-	vhCheckC10(env, su.bodyKind, su.getBodyFailsAt, -1, err)
+	vhCheckC10(env, su.bodyKind, su.getBodyFailsAt, maxRetries, err)
+}
+
+// The request context ends while Connect sleeps between two attempts, long before the wait
+// is over: Connect returns the context's error then, not when the wait would have ended.
+func vhC11CancelInWait() {
+	su := vhConnSetup(2)
+	var err error
+	finished := vhWithDeadline(3*time.Second, func() { err = su.c.Connect() })
+	verifAssert(finished, "C11/Connect/returns-once-the-context-is-done-during-the-wait")
+	if finished {
+		verifAssert(err != nil, "C11/Connect/never-returns-nil")
+		if su.env.ctx.err != nil {
+			verifAssert(err == su.env.ctx.err, "C11/Connect/returns-the-context-error-once-the-context-is-done")
+			verifCover("C11/Connect/cancelled")
+		}
+	}
+}
+
+// vhWithDeadline runs f; natively it gives up waiting after d and reports false (f keeps
+// running in its goroutine). Under the executor a call that never returns is a hang.
+func vhWithDeadline(d time.Duration, f func()) bool {
+	if verifSymbolic() {
+		f()
+		return true
+	}
+	done := make(chan struct{})
+	go func() { defer close(done); f() }()
+	select {
+	case <-done:
+		return true
+	case <-time.After(d):
+		return false
+	}
 }
